@@ -1,6 +1,8 @@
 import NeatviVerif.Model.ExCmd
 import NeatviVerif.Lemmas.ExFrame
 import NeatviVerif.Lemmas.C12Exec
+import NeatviVerif.Lemmas.C06Ex
+import NeatviVerif.Lemmas.C10Eval
 /-!
 # C14: `:s` — the expansion of the replacement, the per-line scan, and the frame of `ec_substitute`
 -/
@@ -680,7 +682,16 @@ example : (rstrMake [97] 0).bind (fun r => r.bind (fun re => substLine re [98] f
 example : (rstrMake [94, 97] 0).bind (fun r => r.bind (fun re => substLine re [98] true [97, 97, 97, 10])) =
     some (some [98, 97, 97, 10]) := by decide
 
-/-! ## 5. the frame of `ec_substitute` -/
+/-! ## 5. the frame of `ec_substitute`
+
+The loop over the range makes `e - b` rounds; after an edit that changes the number of lines (`lbuf_edit` puts
+none, or two and more lines for the one it replaces) the index and the end move by that change, so the `k`-th
+round works on the line that was at `b + k` when the loop started.  `substLoop` is that loop with the shift
+computed (`ed.len` now minus `ed.len` at the start), `substLoopS` the loop as the model writes it (the shift
+carried in the state); `substLoopS_eq` relates them.  `substLoop_lines` is the content: the new buffer is
+`lines[0, b) ++ (newLines of each line of [b, e), in order) ++ lines[e, …)`, for every replacement.
+`outside_range_unchanged` states it for the command, with the frame (before `b`: unchanged; from `e` on:
+unchanged up to the shift) and the old single-line corollary. -/
 
 /-- the prologue of `ec_substitute`: pattern and replacement are read from the argument and remembered;
     returns the editor and the `g` flag -/
@@ -695,7 +706,7 @@ def substPrep (ed : Ed) (arg : Bytes) : Ed × Bool :=
   let ed := if pat.isSome || rep.isSome then { ed with xrep := (rep.getD []).take (Gen.EXLEN - 1) } else ed
   (ed, s.contains 103)
 
-/-- one round of the loop of `ec_substitute` on line `i` -/
+/-- one round of the loop of `ec_substitute` on row `i` -/
 def substStep (re : RStr) (g : Bool) (i : Int) (ed : Ed) : Option Ed :=
   match ed.line i with
   | none => none
@@ -705,12 +716,93 @@ def substStep (re : RStr) (g : Bool) (i : Int) (ed : Ed) : Option Ed :=
     | some none => some ed
     | some (some nl) => ed.edit (some nl) i (i + 1)
 
-/-- the loop of `ec_substitute` over `n` lines from `b` -/
+/-- the loop of `ec_substitute` over the `n` lines that were at `b, …, b + n - 1` when it started.  After an
+    edit the index and the end move by the change of the buffer length (`i += n; end += n`), so the `k`-th
+    round works on row `b + k + sh`, where `sh` — the sum of the changes so far — is how much the buffer has
+    grown since the loop started -/
 def substLoop (re : RStr) (g : Bool) (b : Int) (n : Nat) (ed : Ed) : Option Ed :=
   (List.range n).foldl (fun (acc : Option Ed) (k : Nat) =>
     match acc with
     | none => none
-    | some ed => substStep re g (b + (k : Int)) ed) (some ed)
+    | some em => substStep re g (b + (k : Int) + (em.len - ed.len)) em) (some ed)
+
+/-- the same loop as the model writes it: the state is the editor and the shift `sh` -/
+def substLoopS (re : RStr) (g : Bool) (b : Int) (n : Nat) (ed : Ed) : Option (Ed × Int) :=
+  (List.range n).foldl (fun (acc : Option (Ed × Int)) (k : Nat) =>
+    match acc with
+    | none => none
+    | some (ed, sh) =>
+      let row := b + (k : Int) + sh
+      match ed.line row with
+      | none => none
+      | some ln =>
+        match substLine re ed.xrep g ln with
+        | none => none
+        | some none => some (ed, sh)
+        | some (some nl) =>
+          match ed.edit (some nl) row (row + 1) with
+          | none => none
+          | some ed' => some (ed', sh + (ed'.len - ed.len))) (some (ed, 0))
+
+theorem substLoop_succ (re : RStr) (g : Bool) (b : Int) (n : Nat) (ed : Ed) :
+    substLoop re g b (n + 1) ed =
+      (substLoop re g b n ed).bind (fun em => substStep re g (b + (n : Int) + (em.len - ed.len)) em) := by
+  unfold substLoop
+  rw [List.range_succ, List.foldl_append]
+  simp only [List.foldl_cons, List.foldl_nil]
+  cases List.foldl _ (some ed) (List.range n) <;> rfl
+
+/-- the shift the model carries is the growth of the buffer: the two formulations of the loop agree -/
+theorem substLoopS_eq (re : RStr) (g : Bool) (b : Int) (ed : Ed) : ∀ n : Nat,
+    substLoopS re g b n ed = (substLoop re g b n ed).map (fun em => (em, em.len - ed.len)) := by
+  intro n
+  induction n with
+  | zero =>
+    show some (ed, (0 : Int)) = some (ed, ed.len - ed.len)
+    rw [Int.sub_self]
+  | succ n ih =>
+    rw [substLoop_succ]
+    have hs : substLoopS re g b (n + 1) ed =
+        (substLoopS re g b n ed).bind (fun st =>
+          match st with
+          | (ed, sh) =>
+            let row := b + (n : Int) + sh
+            match ed.line row with
+            | none => none
+            | some ln =>
+              match substLine re ed.xrep g ln with
+              | none => none
+              | some none => some (ed, sh)
+              | some (some nl) =>
+                match ed.edit (some nl) row (row + 1) with
+                | none => none
+                | some ed' => some (ed', sh + (ed'.len - ed.len))) := by
+      unfold substLoopS
+      rw [List.range_succ, List.foldl_append]
+      simp only [List.foldl_cons, List.foldl_nil]
+      cases List.foldl _ (some (ed, (0 : Int))) (List.range n) <;> rfl
+    rw [hs, ih]
+    cases substLoop re g b n ed with
+    | none => rfl
+    | some em =>
+      simp only [Option.map_some, Option.bind_some]
+      unfold substStep
+      cases em.line (b + (n : Int) + (em.len - ed.len)) with
+      | none => rfl
+      | some ln =>
+        simp only []
+        cases substLine re em.xrep g ln with
+        | none => rfl
+        | some o =>
+          cases o with
+          | none => rfl
+          | some nl =>
+            simp only []
+            cases em.edit (some nl) (b + (n : Int) + (em.len - ed.len)) (b + (n : Int) + (em.len - ed.len) + 1) with
+            | none => rfl
+            | some e2 =>
+              simp only [Option.map_some, Option.some.injEq, Prod.mk.injEq, true_and]
+              omega
 
 /-- the `ec_substitute` branch of `runCmd`, in terms of the pieces above -/
 theorem runCmd_subst_eq (f : Nat) (ed : Ed) (loc cmd arg : Bytes) (txt : Option Bytes) :
@@ -727,9 +819,34 @@ theorem runCmd_subst_eq (f : Nat) (ed : Ed) (loc cmd arg : Bytes) (txt : Option 
           match substLoop re (substPrep ed arg).2 b (e - b).toNat (substPrep ed arg).1 with
           | none => none
           | some ed => some (0, ed) := by
-  rw [runCmd]
-  simp (config := {decide := true}) only [if_false, if_true]
-  rfl
+  have h1 : runCmd (f + 1) ed "ec_substitute" loc cmd arg txt =
+      match exRegion ed loc with
+      | none => none
+      | some ((rc, b, e), ed) =>
+        if rc != 0 then some (1, ed) else
+        if (substPrep ed arg).1.xkwddir == 0 then some (1, (substPrep ed arg).1) else
+        match (substPrep ed arg).1.mkRe (substPrep ed arg).1.xkwd with
+        | none => none
+        | some none => some (1, (substPrep ed arg).1)
+        | some (some re) =>
+          match substLoopS re (substPrep ed arg).2 b (e - b).toNat (substPrep ed arg).1 with
+          | none => none
+          | some (ed, _) => some (0, ed) := by
+    rw [runCmd]
+    simp (config := {decide := true}) only [if_false, if_true]
+    rfl
+  rw [h1]
+  split
+  · rfl
+  · split
+    · rfl
+    · split
+      · rfl
+      · split
+        · rfl
+        · rfl
+        · rw [substLoopS_eq]
+          cases substLoop _ _ _ _ _ <;> rfl
 
 theorem setLb_xrep (ed : Ed) (lb : Lb) : (ed.setLb lb).xrep = ed.xrep := by
   unfold Ed.setLb; split <;> rfl
@@ -779,6 +896,69 @@ theorem line_eq_of_lb {ed ed' : Ed} {lb lb' : Lb} (h1 : ed.lb = some lb) (h2 : e
   rw [h1, h2]
   simp only [Option.bind_some, h]
 
+/-- the lines of the current buffer (none when there is no buffer) -/
+def edLines (ed : Ed) : List Bytes := match ed.lb with | some lb => lb.lines | none => []
+
+theorem line_eq_edLines (ed : Ed) (j : Int) : ed.line j = if j < 0 then none else (edLines ed)[j.toNat]? := by
+  unfold Ed.line edLines
+  cases ed.lb <;> simp
+
+theorem len_eq_edLines (ed : Ed) : ed.len = ((edLines ed).length : Int) := by
+  unfold Ed.len edLines
+  cases ed.lb <;> rfl
+
+/-- what one round makes of a line of the range: the lines of its rewritten text, or the line itself when
+    the pattern is not found in it -/
+def newLines (re : RStr) (rep : Bytes) (g : Bool) (ln : Bytes) : List Bytes :=
+  match substLine re rep g ln with
+  | some (some nl) => splitLines nl
+  | _ => [ln]
+
+theorem list_split_at {α : Type} (l : List α) (i : Nat) (x : α) (h : l[i]? = some x) :
+    l = l.take i ++ [x] ++ l.drop (i + 1) := by
+  induction l generalizing i with
+  | nil => simp at h
+  | cons a l ih =>
+    cases i with
+    | zero => simp at h; subst h; simp
+    | succ i =>
+      simp only [List.getElem?_cons_succ] at h
+      simp only [List.take_succ_cons, List.drop_succ_cons, List.cons_append]
+      rw [← ih i h]
+
+/-- one round on row `i`: the row exists and is replaced by its `newLines` -/
+theorem substStep_lines {re : RStr} {g : Bool} {i : Int} {ed ed' : Ed} (h : substStep re g i ed = some ed') :
+    0 ≤ i ∧ ed'.xrep = ed.xrep ∧ ∃ ln, (edLines ed)[i.toNat]? = some ln ∧
+      edLines ed' = (edLines ed).take i.toNat ++ newLines re ed.xrep g ln ++ (edLines ed).drop (i.toNat + 1) := by
+  unfold substStep at h
+  split at h
+  · cases h
+  · rename_i ln hl
+    have hl' := hl
+    rw [line_eq_edLines] at hl'
+    have h0 : 0 ≤ i := by
+      apply Classical.byContradiction
+      intro hn
+      rw [if_pos (by omega)] at hl'
+      cases hl'
+    rw [if_neg (by omega)] at hl'
+    split at h
+    · cases h
+    · rename_i hs
+      cases h
+      refine ⟨h0, rfl, ln, hl', ?_⟩
+      unfold newLines
+      rw [hs]
+      exact list_split_at _ _ _ hl'
+    · rename_i nl hs
+      obtain ⟨_, hx, lb, lb', hlb, hlb', _, hlines⟩ := edit_one_line hl h
+      refine ⟨h0, hx, ln, hl', ?_⟩
+      unfold newLines
+      rw [hs]
+      unfold edLines
+      rw [hlb, hlb']
+      exact hlines
+
 /-- one round leaves the lines before `i` alone, and also those after `i` and the line count when the new
     text is a single line -/
 theorem substStep_frame {re : RStr} {g : Bool} {i : Int} {ed ed' : Ed} (h : substStep re g i ed = some ed') :
@@ -813,69 +993,197 @@ theorem substStep_frame {re : RStr} {g : Bool} {i : Int} {ed ed' : Ed} (h : subs
           rw [hlines]
           exact splice_get_gt _ _ _ _ h1 hlt (by omega)
 
-theorem substLoop_succ (re : RStr) (g : Bool) (b : Int) (n : Nat) (ed : Ed) :
-    substLoop re g b (n + 1) ed = (substLoop re g b n ed).bind (substStep re g (b + (n : Int))) := by
-  unfold substLoop
-  rw [List.range_succ, List.foldl_append]
-  simp only [List.foldl_cons, List.foldl_nil]
-  cases List.foldl _ (some ed) (List.range n) <;> rfl
-
-/-- the loop never touches the lines before `b` -/
-theorem substLoop_before (re : RStr) (g : Bool) (b : Int) : ∀ (n : Nat) (ed ed' : Ed),
-    substLoop re g b n ed = some ed' → ed'.xrep = ed.xrep ∧ ∀ j, j < b → ed'.line j = ed.line j := by
+/-- **the loop rewrites each line of the range exactly once**: after `n` rounds the buffer is the lines
+    before `b`, then for each of the `n` lines that were at `b, b + 1, …` what one round makes of it (`newLines`:
+    the lines of its rewritten text — none, one or several — or the line itself), then the lines that were
+    at `b + n` and after.  A successful loop of at least one round also shows `0 ≤ b` and `b + n ≤ len` -/
+theorem substLoop_lines (re : RStr) (g : Bool) (b : Int) (ed : Ed) : ∀ (n : Nat) (ed' : Ed),
+    substLoop re g b n ed = some ed' →
+      ed'.xrep = ed.xrep ∧ (0 < n → 0 ≤ b ∧ b.toNat + n ≤ (edLines ed).length) ∧
+      edLines ed' = (edLines ed).take b.toNat ++
+        (((edLines ed).drop b.toNat).take n).flatMap (newLines re ed.xrep g) ++ (edLines ed).drop (b.toNat + n) := by
   intro n
   induction n with
-  | zero => intro ed ed' h; cases h; exact ⟨rfl, fun _ _ => rfl⟩
+  | zero =>
+    intro ed' h
+    cases h
+    refine ⟨rfl, fun h => absurd h (by omega), ?_⟩
+    simp
   | succ n ih =>
-    intro ed ed' h
+    intro ed' h
     rw [substLoop_succ] at h
     cases hm : substLoop re g b n ed with
     | none => rw [hm] at h; cases h
     | some em =>
       rw [hm] at h
       simp only [Option.bind_some] at h
-      obtain ⟨a1, a2⟩ := ih _ _ hm
-      obtain ⟨b1, b2, _⟩ := substStep_frame h
-      exact ⟨by rw [b1, a1], fun j hj => by rw [b2 j (by omega), a2 j hj]⟩
+      obtain ⟨x1, x2, x3⟩ := ih em hm
+      obtain ⟨r0, y1, ln, hln, y2⟩ := substStep_lines h
+      rw [len_eq_edLines em, len_eq_edLines ed] at r0 hln y2
+      rw [x1] at y2
+      generalize edLines ed = L at *
+      generalize edLines em = Lm at *
+      generalize edLines ed' = L' at *
+      generalize hM : ((L.drop b.toNat).take n).flatMap (newLines re ed.xrep g) = M at *
+      -- the range starts inside the buffer
+      have hb : 0 ≤ b ∧ b.toNat + n ≤ L.length := by
+        cases n with
+        | zero =>
+          simp only [List.take_zero, List.flatMap_nil] at hM
+          subst hM
+          simp only [List.append_nil, Nat.add_zero, List.take_append_drop] at x3
+          subst x3
+          have hlt := (List.getElem?_eq_some_iff.1 hln).1
+          constructor
+          · omega
+          · omega
+        | succ n => exact x2 (by omega)
+      obtain ⟨hb0, hbn⟩ := hb
+      have hlen : (Lm.length : Int) - (L.length : Int) = (M.length : Int) - (n : Int) := by
+        rw [x3]
+        simp only [List.length_append, List.length_take, List.length_drop]
+        omega
+      have hrow : (b + (n : Int) + ((Lm.length : Int) - (L.length : Int))).toNat = (L.take b.toNat ++ M).length := by
+        rw [hlen]
+        simp only [List.length_append, List.length_take]
+        omega
+      rw [hrow] at hln y2
+      rw [x3] at hln y2
+      rw [List.getElem?_append_right (Nat.le_refl _), Nat.sub_self, List.getElem?_drop, Nat.add_zero] at hln
+      have hlt : b.toNat + n < L.length := by
+        apply Classical.byContradiction
+        intro hge
+        rw [List.getElem?_eq_none (by omega)] at hln
+        cases hln
+      refine ⟨by rw [y1, x1], fun _ => ⟨hb0, by omega⟩, ?_⟩
+      rw [y2, List.take_left, List.drop_append, List.drop_of_length_le (Nat.le_succ _)]
+      have e1 : (L.take b.toNat ++ M).length + 1 - (L.take b.toNat ++ M).length = 1 := by omega
+      rw [e1, List.drop_drop, List.nil_append]
+      have e2 : ((L.drop b.toNat).take (n + 1)) = (L.drop b.toNat).take n ++ [ln] := by
+        rw [List.take_add_one, List.getElem?_drop, hln]
+        rfl
+      rw [e2, List.flatMap_append, hM]
+      simp only [List.flatMap_cons, List.flatMap_nil, List.append_nil, List.append_assoc]
+      rw [show b.toNat + n + 1 = b.toNat + (n + 1) by omega]
+
+theorem flatMap_length_one {α β : Type} (f : α → List β) : ∀ (l : List α), (∀ x ∈ l, (f x).length = 1) →
+    (l.flatMap f).length = l.length := by
+  intro l
+  induction l with
+  | nil => intro _; rfl
+  | cons a l ih =>
+    intro h
+    rw [List.flatMap_cons, List.length_append, h a (by simp), ih (fun x hx => h x (by simp [hx]))]
+    simp only [List.length_cons]
+    omega
+
+/-- the loop never touches the lines before `b` -/
+theorem substLoop_before (re : RStr) (g : Bool) (b : Int) (n : Nat) (ed ed' : Ed)
+    (h : substLoop re g b n ed = some ed') : ed'.xrep = ed.xrep ∧ ∀ j, j < b → ed'.line j = ed.line j := by
+  cases n with
+  | zero => cases h; exact ⟨rfl, fun _ _ => rfl⟩
+  | succ n =>
+    obtain ⟨x1, x2, x3⟩ := substLoop_lines re g b ed _ ed' h
+    obtain ⟨hb0, hbn⟩ := x2 (by omega)
+    refine ⟨x1, ?_⟩
+    intro j hj
+    rw [line_eq_edLines, line_eq_edLines]
+    split
+    · rfl
+    · rw [x3, List.append_assoc, List.getElem?_append_left (by simp only [List.length_take]; omega),
+        List.getElem?_take_of_lt (by omega)]
+
+/-- every line from the end of the range on is kept, moved by the change of the number of lines -/
+theorem substLoop_after (re : RStr) (g : Bool) (b : Int) (n : Nat) (ed ed' : Ed)
+    (h : substLoop re g b n ed = some ed') :
+    ∀ j, b + (n : Int) ≤ j → ed'.line (j + (ed'.len - ed.len)) = ed.line j := by
+  cases n with
+  | zero => cases h; intro j _; rw [Int.sub_self, Int.add_zero]
+  | succ n =>
+    obtain ⟨x1, x2, x3⟩ := substLoop_lines re g b ed _ ed' h
+    obtain ⟨hb0, hbn⟩ := x2 (by omega)
+    intro j hj
+    rw [line_eq_edLines, line_eq_edLines, len_eq_edLines, len_eq_edLines]
+    generalize edLines ed = L at *
+    generalize edLines ed' = L' at *
+    generalize ((L.drop b.toNat).take (n + 1)).flatMap (newLines re ed.xrep g) = M at *
+    have hlen : L'.length = b.toNat + M.length + (L.length - (b.toNat + (n + 1))) := by
+      rw [x3]
+      simp only [List.length_append, List.length_take, List.length_drop]
+      omega
+    rw [if_neg (by omega), if_neg (by omega)]
+    have e : (j + ((L'.length : Int) - (L.length : Int))).toNat =
+        (L.take b.toNat ++ M).length + (j.toNat - (b.toNat + (n + 1))) := by
+      simp only [List.length_append, List.length_take]
+      omega
+    rw [e, x3, List.getElem?_append_right (by omega), Nat.add_sub_cancel_left, List.getElem?_drop]
+    congr 1
+    omega
 
 /-- when every rewritten line stays a single line, the loop keeps the line count and the lines outside
     `[b, b + n)` -/
-theorem substLoop_outside (re : RStr) (g : Bool) (b : Int) : ∀ (n : Nat) (ed ed' : Ed),
-    substLoop re g b n ed = some ed' →
-    (∀ i ln nl, b ≤ i → i < b + n → ed.line i = some ln → substLine re ed.xrep g ln = some (some nl) →
-      (splitLines nl).length = 1) →
+theorem substLoop_outside (re : RStr) (g : Bool) (b : Int) (n : Nat) (ed ed' : Ed)
+    (h : substLoop re g b n ed = some ed')
+    (hone : ∀ i ln nl, b ≤ i → i < b + n → ed.line i = some ln → substLine re ed.xrep g ln = some (some nl) →
+      (splitLines nl).length = 1) :
     ed'.len = ed.len ∧ ∀ j, (j < b ∨ b + n ≤ j) → ed'.line j = ed.line j := by
-  intro n
-  induction n with
-  | zero => intro ed ed' h _; cases h; exact ⟨rfl, fun _ _ => rfl⟩
-  | succ n ih =>
-    intro ed ed' h hone
-    rw [substLoop_succ] at h
-    cases hm : substLoop re g b n ed with
-    | none => rw [hm] at h; cases h
-    | some em =>
-      rw [hm] at h
-      simp only [Option.bind_some] at h
-      obtain ⟨a1, a2⟩ := ih _ _ hm (fun i ln nl h1 h2 => hone i ln nl h1 (by omega))
-      obtain ⟨x1, _⟩ := substLoop_before re g b n ed em hm
-      obtain ⟨_, b2, b3⟩ := substStep_frame h
-      have hcur : em.line (b + (n : Int)) = ed.line (b + (n : Int)) := a2 _ (Or.inr (by omega))
-      obtain ⟨c1, c2⟩ := b3 (fun ln nl hl hs => hone (b + n) ln nl (by omega) (by omega) (by rw [← hcur]; exact hl)
-        (by rw [← x1]; exact hs))
-      refine ⟨by rw [c1, a1], ?_⟩
-      intro j hj
-      rcases hj with hj | hj
-      · rw [b2 j (by omega), a2 j (Or.inl hj)]
-      · rw [c2 j (by omega), a2 j (Or.inr (by omega))]
+  have hlen : ed'.len = ed.len := by
+    cases n with
+    | zero => cases h; rfl
+    | succ n =>
+      obtain ⟨x1, x2, x3⟩ := substLoop_lines re g b ed _ ed' h
+      obtain ⟨hb0, hbn⟩ := x2 (by omega)
+      have hM := flatMap_length_one (newLines re ed.xrep g) (((edLines ed).drop b.toNat).take (n + 1)) (by
+        intro x hx
+        obtain ⟨k, hk⟩ := List.mem_iff_getElem?.1 hx
+        rw [List.getElem?_take] at hk
+        split at hk
+        · rename_i hkn
+          rw [List.getElem?_drop] at hk
+          unfold newLines
+          split
+          · rename_i nl hs
+            refine hone (b + (k : Int)) x nl (by omega) (by omega) ?_ hs
+            rw [line_eq_edLines, if_neg (by omega), ← hk]
+            congr 1
+            omega
+          · rfl
+        · cases hk)
+      rw [len_eq_edLines, len_eq_edLines, x3]
+      simp only [List.length_append, hM, List.length_take, List.length_drop]
+      omega
+  refine ⟨hlen, ?_⟩
+  intro j hj
+  rcases hj with hj | hj
+  · exact (substLoop_before re g b n ed ed' h).2 j hj
+  · have := substLoop_after re g b n ed ed' h j hj
+    rw [hlen, Int.sub_self, Int.add_zero] at this
+    exact this
 
-/-- **outside_range_unchanged**: a successful `:s` over `[b, e)` leaves every line before `b` alone; and
-    when every rewritten line is still a single line (the replacement brought no newline, and did not
-    remove the line's own), the number of lines and every line from `e` on are unchanged as well -/
+theorem edLines_of_bufs {ed ed' : Ed} (h : ed'.bufs = ed.bufs) : edLines ed' = edLines ed := by
+  unfold edLines; rw [lb_of_bufs h]
+
+/-- **outside_range_unchanged** (the frame of `:s`, for every replacement): a successful `:s` over `[b, e)`
+    * leaves every line before `b` alone;
+    * keeps every line from `e` on, moved by the change `ed'.len - ed.len` of the number of lines;
+    * rewrites each line of the range exactly once: the new buffer is the lines before `b`, then for each line
+      that was in `[b, e)`, in order, what one round makes of it (`newLines`: the lines of its rewritten text —
+      two or more when the replacement brought a newline, none when the pattern consumed the line's own
+      newline and nothing is left — or the line itself when the pattern is not found), then the lines that
+      were at `e` and after;
+    * and (the single-line corollary) when every rewritten line is still a single line, the number of lines
+      and every line from `e` on are unchanged -/
 theorem outside_range_unchanged (f : Nat) (ed : Ed) (loc cmd arg : Bytes) (txt : Option Bytes) (ed' : Ed)
     (h : runCmd (f + 1) ed "ec_substitute" loc cmd arg txt = some (0, ed')) :
     ∃ b e ed1 re, exRegion ed loc = some ((0, b, e), ed1) ∧
       (substPrep ed1 arg).1.mkRe (substPrep ed1 arg).1.xkwd = some (some re) ∧
+      0 ≤ b ∧ b ≤ e ∧ e ≤ ed.len ∧
       (∀ j, j < b → ed'.line j = ed.line j) ∧
+      (∀ j, e ≤ j → ed'.line (j + (ed'.len - ed.len)) = ed.line j) ∧
+      edLines ed' = (edLines ed).take b.toNat ++
+        (((edLines ed).drop b.toNat).take (e - b).toNat).flatMap
+          (newLines re (substPrep ed1 arg).1.xrep (substPrep ed1 arg).2) ++
+        (edLines ed).drop e.toNat ∧
       ((∀ i ln nl, b ≤ i → i < e → ed.line i = some ln →
           substLine re (substPrep ed1 arg).1.xrep (substPrep ed1 arg).2 ln = some (some nl) →
           (splitLines nl).length = 1) →
@@ -903,14 +1211,133 @@ theorem outside_range_unchanged (f : Nat) (ed : Ed) (loc cmd arg : Bytes) (txt :
               rw [line_of_bufs (substPrep_bufs ed1 arg), line_of_bufs (exRegion_bufs hr)]
             have hl1 : (substPrep ed1 arg).1.len = ed.len := by
               rw [len_of_bufs (substPrep_bufs ed1 arg), len_of_bufs (exRegion_bufs hr)]
-            refine ⟨b, e, ed1, re, hr, hre, ?_, ?_⟩
+            have hL1 : edLines (substPrep ed1 arg).1 = edLines ed := by
+              rw [edLines_of_bufs (substPrep_bufs ed1 arg), edLines_of_bufs (exRegion_bufs hr)]
+            obtain ⟨_, _, hreg, _⟩ := Neatvi.Lemmas.C06.region_all ed loc 0 b e ed1 hr
+            obtain ⟨r1, r2, r3, _⟩ := hreg rfl
+            rw [len_of_bufs (exRegion_bufs hr)] at r3
+            have hbn : b + (((e - b).toNat : Nat) : Int) = e := by omega
+            refine ⟨b, e, ed1, re, hr, hre, r1, r2, r3, ?_, ?_, ?_, ?_⟩
             · intro j hj
               rw [(substLoop_before re _ b _ _ _ hloop).2 j hj, hb1]
+            · intro j hj
+              have := substLoop_after re _ b _ _ _ hloop j (by omega)
+              rw [hl1, hb1] at this
+              exact this
+            · obtain ⟨_, _, x3⟩ := substLoop_lines re _ b _ _ _ hloop
+              rw [hL1] at x3
+              rw [x3, show b.toNat + (e - b).toNat = e.toNat by omega]
             · intro hone
               obtain ⟨c1, c2⟩ := substLoop_outside re _ b _ _ _ hloop
                 (fun i ln nl h1 h2 hl hs => hone i ln nl h1 (by omega) (by rw [← hb1]; exact hl) hs)
               refine ⟨by rw [c1, hl1], ?_⟩
               intro j hj
-              rw [c2 j (by omega), hb1]
+              rw [c2 j (Or.inr (by omega)), hb1]
+
+/-! ### the statement on concrete buffers
+
+`a b b c d`, one letter per line.  (`#eval` of the model gives the same lists.) -/
+
+def exBuf : Ed := { bufs := [some { path := [], lb := { lines := [[97, 10], [98, 10], [98, 10], [99, 10], [100, 10]] } }] }
+
+/-- `:2,3s/b/X<newline>Y/`: each `b` becomes the two lines `X`, `Y`, once; `c`, `d` move down by two.
+    (Before the repair the loop substituted in rows 1 and 2 of the growing buffer, which after the first
+    split are `X` and `Y`: the second `b` was never visited.) -/
+example : (runCmd 1 exBuf "ec_substitute" [50, 44, 51] [115] [47, 98, 47, 88, 10, 89, 47] none).map
+    (fun r => (r.1, edLines r.2)) =
+    some (0, [[97, 10], [88, 10], [89, 10], [88, 10], [89, 10], [99, 10], [100, 10]]) := by
+  rw [runCmd_subst_eq]
+  decide +kernel
+
+/-- the right-hand side of the list equation of `outside_range_unchanged` for this command -/
+example : (rstrMake [98] 0).map (fun r => r.map (fun re =>
+    (edLines exBuf).take 1 ++ (((edLines exBuf).drop 1).take 2).flatMap (newLines re [88, 10, 89] false) ++
+      (edLines exBuf).drop 3)) =
+    some (some [[97, 10], [88, 10], [89, 10], [88, 10], [89, 10], [99, 10], [100, 10]]) := by decide
+
+/-- the loop alone, on the same range -/
+example : (rstrMake [98] 0).bind (fun r => r.bind (fun re =>
+    (substLoop re false 1 2 { exBuf with xrep := [88, 10, 89] }).map edLines)) =
+    some [[97, 10], [88, 10], [89, 10], [88, 10], [89, 10], [99, 10], [100, 10]] := by decide
+
+/-! `:1,4s/b\<newline>//`: the pattern consumes the line's own newline, the rewritten text is empty and the
+    line vanishes.  The pattern is not a literal, so the matcher is the regex VM (defined by well-founded
+    recursion): its three calls are evaluated with the fuelled `regexecF`, everything else by `decide`. -/
+
+/-- `rset_make` of `b\<newline>` -/
+def delSet : RSet := match Rset.make [some [98, 92, 10]] 0 with
+  | some (some r) => r
+  | _ => ⟨⟨[], 0, 0⟩, 0, [], [], 0⟩
+def delRe : RStr := ⟨some delSet, none, false, false, false, false, false⟩
+
+example : rstrMake [98, 92, 10] 0 = some (some delRe) := by rfl
+
+open Neatvi.Regex Neatvi.Lemmas.C10 in
+theorem del_find_other (c : Nat) (hc : c = 97 ∨ c = 99) : rstrFind delRe [c, 10] 16 0 ND NG = some (-1, [], 0) := by
+  show find delSet [c, 10] 16 0 ND NG = _
+  unfold find
+  rw [if_neg (by decide)]
+  have : regexec delSet.prog [c, 10] delSet.grpcnt (REG_NEWLINE ||| (if 0 &&& RE_NOTBOL != 0 then REG_NOTBOL else 0) |||
+      (if 0 &&& RE_NOTEOL != 0 then REG_NOTEOL else 0)) ND NG = (ExecRes.nomatch 0, []) := by
+    rcases hc with rfl | rfl <;> exact regexecF_sound (fuel := 40) (by decide)
+  simp only [this]
+
+open Neatvi.Regex Neatvi.Lemmas.C10 in
+theorem del_find_b : rstrFind delRe [98, 10] 16 0 ND NG = some (0, [0, 2] ++ List.replicate 30 (-1), 0) := by
+  show find delSet [98, 10] 16 0 ND NG = _
+  unfold find
+  rw [if_neg (by decide)]
+  have := regexecF_sound (fuel := 40) (p := delSet.prog) (subj := [98, 10]) (nsub := delSet.grpcnt)
+    (eflg := (REG_NEWLINE ||| (if 0 &&& RE_NOTBOL != 0 then REG_NOTBOL else 0) |||
+      (if 0 &&& RE_NOTEOL != 0 then REG_NOTEOL else 0))) (nd := ND) (ngrps := NG)
+    (r := (ExecRes.found ([0, 2, 0, 2, 0, 2] ++ List.replicate 122 (-1)) 0, [(0, 2), (0, 2), (0, 2)])) (by decide)
+  simp only [this]
+  decide
+
+/-- a line without `b` is left alone, the line `b` is rewritten to the empty text: no line -/
+theorem del_line_other (c : Nat) (hc : c = 97 ∨ c = 99) : substLine delRe [] false [c, 10] = some none :=
+  subst_no_match delRe [] false [c, 10] (-1) [] 0 (del_find_other c hc) (by decide)
+theorem del_line_b : substLine delRe [] false [98, 10] = some (some []) :=
+  subst_first_only delRe [] [98, 10] 0 _ 0 [] del_find_b (by decide) (by decide) (by decide)
+
+example : newLines delRe [] false [98, 10] = [] := by unfold newLines; rw [del_line_b]; rfl
+example : newLines delRe [] false [97, 10] = [[97, 10]] := by unfold newLines; rw [del_line_other 97 (Or.inl rfl)]
+
+def exBuf1 : Ed := (exBuf.edit (some []) 1 2).getD exBuf
+def exBuf2 : Ed := (exBuf1.edit (some []) 1 2).getD exBuf1
+
+/-- the four rounds work on rows 0, 1, 1, 1 (the lines `a`, `b`, `b`, `c` of the original buffer); both `b`
+    vanish and `d`, outside the range, is kept.  (Before the repair the rounds were on rows 0, 1, 2, 3 — `a`,
+    `b`, `c`, and a row past the end: a trap.) -/
+example : (substLoop delRe false 0 4 exBuf).map edLines = some [[97, 10], [99, 10], [100, 10]] := by
+  have h0 : substLoop delRe false 0 0 exBuf = some exBuf := rfl
+  have h1 : substLoop delRe false 0 1 exBuf = some exBuf := by
+    rw [substLoop_succ, h0]
+    simp only [Option.bind_some]
+    unfold substStep
+    rw [show exBuf.line (0 + ((0 : Nat) : Int) + (exBuf.len - exBuf.len)) = some [97, 10] by decide]
+    simp only [show exBuf.xrep = [] from rfl, del_line_other 97 (Or.inl rfl)]
+  have h2 : substLoop delRe false 0 2 exBuf = some exBuf1 := by
+    rw [substLoop_succ, h1]
+    simp only [Option.bind_some]
+    unfold substStep
+    rw [show exBuf.line (0 + ((1 : Nat) : Int) + (exBuf.len - exBuf.len)) = some [98, 10] by decide]
+    simp only [show exBuf.xrep = [] from rfl, del_line_b]
+    rfl
+  have h3 : substLoop delRe false 0 3 exBuf = some exBuf2 := by
+    rw [substLoop_succ, h2]
+    simp only [Option.bind_some]
+    unfold substStep
+    rw [show exBuf1.line (0 + ((2 : Nat) : Int) + (exBuf1.len - exBuf.len)) = some [98, 10] by decide]
+    simp only [show exBuf1.xrep = [] from rfl, del_line_b]
+    rfl
+  have h4 : substLoop delRe false 0 4 exBuf = some exBuf2 := by
+    rw [substLoop_succ, h3]
+    simp only [Option.bind_some]
+    unfold substStep
+    rw [show exBuf2.line (0 + ((3 : Nat) : Int) + (exBuf2.len - exBuf.len)) = some [99, 10] by decide]
+    simp only [show exBuf2.xrep = [] from rfl, del_line_other 99 (Or.inr rfl)]
+  rw [h4]
+  decide
 
 end Neatvi.Props.C14
